@@ -11,9 +11,13 @@ wins, names = lower-cased word tuples, leftmost-then-longest name match right of
 are copied).  It reads the program TEXT; the generator only tells it which right-hand sides are opaque literals of a
 non-number kind and which lines are meant to fail.
 
-There is no known-finding class any more: the three defects once listed for C03 (find_location not restarting, the
-variable left behind by a failing first assignment, `ab` / `a b` sharing one variable) are repaired in the code, and the
-CORPUS below pins each repair with fixed programs whose every line is checked against the reference interpreter."""
+The three defects once listed for C03 (find_location not restarting, the variable left behind by a failing first
+assignment, `ab` / `a b` sharing one variable) are repaired in the code, and the CORPUS below pins each repair with fixed
+programs whose every line is checked against the reference interpreter; so does it for the fourth one (a name with an
+operator word in second or later position, assigned while the name made of its other words is bound, overwrote that
+other variable).  There is no known-finding class.  Names with an operator word only occur in the fixed corpus, not in
+the random pools: with `grand sum` bound a line `grand + grand` is the same token sequence as `grand sum grand`, which is
+outside the statement."""
 from .common import *
 import re
 
@@ -25,10 +29,13 @@ RULE = ("programs of 2-12 lines over name pools with shared prefixes (a / a b / 
         "failing assignment (evaluation error or parse error) of new and of existing names, also of a longer name that "
         "would shadow an existing shorter one, failing use, blank line, use next to a plain word or overlapping a partial "
         "match of the same name (a a b), use of a never (successfully) bound name as plain text, pairs of names whose "
-        "words concatenate to the same string (ab / a b, a bc / ab c); fixed corpus pinning the repaired defects; one "
+        "words concatenate to the same string (ab / a b, a bc / ab c); fixed corpus pinning the repaired defects and names "
+        "with an operator word in second or later position (grand sum, net times) alone and next to their first word; one "
         "exec of the whole text or a re-used session fed in 1-3 chunks; non-trivial = a later line reads a binding made "
         "by an earlier line; distinct = distinct histories")
 ASSUMPTIONS = [
+    "a word that the language reads as an operator (sum, add, minus, times ...) is that operator unless it is part of a "
+    "bound name",
     "words that are not part of a bound name are plain text and are ignored (the calculator's general treatment of text)",
     "operands written next to each other are added (C02); a sign in front of an operand negates it",
     "`3 hours * 2 hours` fails to evaluate (C10: * is not defined on durations); `2 *` and `( 1 + 2` fail to parse",
@@ -85,8 +92,13 @@ def occurs_at(toks, i, name):
     return all(i + j < len(toks) and toks[i + j] == ("word", w) for j, w in enumerate(name))
 
 
+# words the language reads as an operator when they are not part of a bound name (config.json languages.en.alias)
+OPWORDS = {"sum": "+", "add": "+", "append": "+", "minus": "-", "exclude": "-", "times": "*", "multiply": "*"}
+
+
 def resolve(toks, names):
-    """leftmost-then-longest replacement of name occurrences; other words are dropped"""
+    """leftmost-then-longest replacement of name occurrences; an operator word outside a name is its operator, other
+    words are dropped"""
     out, i = [], 0
     while i < len(toks):
         if toks[i][0] == "word":
@@ -97,6 +109,9 @@ def resolve(toks, names):
             if best is not None:
                 out.append(("name", best))
                 i += len(best)
+            elif toks[i][1] in OPWORDS:
+                out.append(("op", OPWORDS[toks[i][1]]))
+                i += 1
             else:
                 i += 1
         else:
@@ -411,6 +426,19 @@ CORPUS = [
     # hold an operator token; binding, re-binding and use must still hit one variable (the first word is not bound alone)
     (["grand sum = 10", "grand sum = 25", "grand sum + 1", "Grand Sum * 2"], None),
     (["net times = 3", "net times = net times + 4", "net times", "rest minus = 2", "rest minus = 9", "rest minus + net times"], None),
+    # ... and such a name next to its first word bound alone: two variables (`grand sum` is stored under the key with
+    # the operator, `grand` under its own), the longer name wins, `grand` can be re-bound freely
+    (["grand sum = 10", "grand = 7", "grand sum", "grand", "grand sum + grand", "grand = 8", "Grand Sum - GRAND",
+      "grand = grand sum + 1", "grand", "grand sum"], None),
+    (["net times = 3", "net = 5", "net times + net", "net = net times", "net", "net times * 2", "NET  TIMES - net"], None),
+    (["rest minus = 2", "rest = 9", "rest minus", "rest", "rest = rest * rest minus", "rest", "rest minus"], None),
+    # binding and re-binding of both names in both orders (formerly `grand sum = ..` overwrote a bound `grand`: the
+    # lookup key left the operator tokens out; repaired in /repo 60764fa)
+    (["grand = 7", "grand sum = 10", "grand", "grand sum"], None),
+    (["grand sum = 10", "grand = 7", "grand sum", "grand", "grand sum = 3", "grand sum + grand"], None),
+    (["grand sum = 10", "grand = 7", "grand sum = 3", "grand sum", "grand", "grand = 1", "grand sum", "GRAND SUM = 4 + grand",
+      "grand sum - grand"], None),
+    (["net = 5", "net times = 3", "net times = net times + net", "net", "net times", "net = net times * 2", "net"], None),
     # words that merely CONTAIN an operator word or resemble a keyword are ordinary name words
     (["cost = 3", "cost summary = 40", "cost + 1", "cost summary * 2"], None),
     (["start = 2", "start timestamp = 100", "start timestamp + start", "rent addition = 5", "rent addition * 2"], None),
